@@ -22,7 +22,11 @@ RULE = ("cases = (generator kind, input matrix or point set, distance callable, 
         "function of the straight-line distance between the samples (circular, feature-map, non-monotone, look-up "
         "callables on 1..3 columns), or (integer matrices with entries above 2**53) the seed arg-max or some step's "
         "arg-min is decided by a difference smaller than the float64 spacing at that magnitude; "
-        "distinct by hash of (mode, matrix bit patterns / exact integer entries)")
+        "distinct by hash of (mode, matrix bit patterns / exact integer entries).  Plus call SEQUENCES (2..4 VAT calls "
+        "of one caller on the same / an equal fresh / an in-place re-labelled input with the same metric object, the "
+        "caller editing the arrays an earlier call returned in place in between): one evaluation = one call of the "
+        "sequence checked by the oracle against ITS input; non-trivial when n >= 3 and a result was edited before a "
+        "call on the same or an equal input; distinct by (mode, matrix, sequence)")
 
 KINDS = ["int-ties", "int-ties", "float-sym", "points-grid", "points-dups", "points-float", "nonsym-int",
          "nonsym-float", "custom-metric", "constant", "two-level", "special-values", "custom-callable",
@@ -481,6 +485,158 @@ def oracle(ctx, D, out, idx, mode, rep):
     return tags
 
 
+# ------------------------------------------------------------------ sequences of calls by one caller
+# The property is about EVERY call: a caller that asks again (same array, an equal fresh array, or its array re-labelled
+# in place) after it has post-processed what an earlier call returned (scaled the image for display, sorted / reversed
+# the index vector, cleared the matrix ...) must get a Prim-ordered permutation and the re-ordered dissimilarities of
+# the input of THAT call; what VAT returned earlier must stay what it was (no array shared between two results, none
+# shared with the caller's input: an in-place edit of one would silently change the other).
+
+EDITS = ["R.scale", "R.scale", "R.zero", "R.shift", "R.negate", "R.transpose", "R.flip", "P.sort", "P.sort",
+         "P.reverse", "P.roll", "P.zero", "none"]
+SEQ_INPUTS = ["same", "same", "same", "copy", "copy", "swap"]
+
+
+def apply_edit(name, R, P) -> bool:
+    """one in-place edit of a returned (matrix, indices) pair, as a caller would do it; False if numpy refused"""
+    try:
+        with np.errstate(all="ignore"):
+            if name == "R.scale":                   # image scaled to [0, 1] for display
+                if R.dtype.kind == "f":
+                    R /= R.max()
+                else:
+                    R //= 2
+            elif name == "R.zero":
+                R[...] = 0
+            elif name == "R.shift":
+                R += 1
+            elif name == "R.negate":
+                np.negative(R, out=R)
+            elif name == "R.transpose":
+                R[:] = R.T.copy()
+            elif name == "R.flip":
+                R[:] = R[::-1, ::-1].copy()
+            elif name == "P.sort":
+                P.sort()
+            elif name == "P.reverse":
+                P[:] = P[::-1].copy()
+            elif name == "P.roll":
+                P[:] = np.roll(P, 1)
+            elif name == "P.zero":
+                P[:] = 0
+            elif name != "none":
+                raise KeyError(name)
+        return True
+    except (TypeError, ValueError):
+        return False
+
+
+def make_sequence(r, n):
+    """steps[k] = {input: first|same|copy|swap (+ swap: [a, b]), edits: [{on: j < k, edit: name}]}"""
+    steps = [{"input": "first", "edits": []}]
+    for k in range(1, r.randint(2, 4)):
+        inp = r.choice(SEQ_INPUTS)
+        st = {"input": inp, "edits": []}
+        if inp == "swap":
+            if n < 2:
+                st["input"] = "same"
+            else:
+                a = r.randrange(n)
+                st["swap"] = [a, r.choice([t for t in range(n) if t != a])]
+        for _ in range(r.choice([1, 1, 2])):
+            st["edits"].append({"on": k - 1 if r.random() < 0.7 else r.randrange(k), "edit": r.choice(EDITS)})
+        steps.append(st)
+    return steps
+
+
+def dissim_of(X, metric):
+    """the matrix VAT is to re-order for the rows X (the way make_case builds it)"""
+    if metric == "default":
+        return squareform(pdist(X, "euclidean"))
+    return squareform(metric_by_name(metric)(X))
+
+
+def run_sequence(ctx, D0, X0, mode, metric, steps, positional, base):
+    """drives one caller's sequence of VAT calls; every call is checked by `oracle` (+ `oracle_exact`) against the
+    input of that call.  Returns (coverage tags, number of calls made)."""
+    tags = set()
+    label = f"{mode}:repeated-call"
+    cls = f"VAT[{label}]"
+    fn = None if mode != "custom" else metric_by_name(metric)      # ONE metric object for the whole sequence
+    D = np.array(D0, copy=True)                                    # the caller's own arrays (edited in place by "swap")
+    arg = D if mode == "precomputed" else np.array(X0, copy=True)
+    results = []                                                   # per call: dict(R, P, R0, P0, edited)
+    for k, st in enumerate(steps):
+        rep = dict(base, mode=mode, sequence=steps[:k + 1], positional=positional, call=k)
+        for e in st["edits"]:                                      # the caller post-processes an earlier result
+            tgt = results[e["on"]]
+            if apply_edit(e["edit"], tgt["R"], tgt["P"]):
+                tgt["edited"] = tgt["edited"] or e["edit"] != "none"
+                tags.add("repeat:edit:" + e["edit"])
+            else:
+                tags.add("repeat:edit-refused-by-numpy:" + e["edit"])
+        if st["input"] == "copy":                                  # an equal array in fresh memory
+            D = np.array(D, copy=True)
+            arg = D if mode == "precomputed" else np.array(arg, copy=True)
+        elif st["input"] == "swap":                                # the caller re-labels two samples in place
+            a, b = st["swap"]
+            if mode == "precomputed":
+                D[[a, b]] = D[[b, a]]
+                D[:, [a, b]] = D[:, [b, a]]
+            else:
+                arg[[a, b]] = arg[[b, a]]
+                if is_int(D) or metric.startswith("table:"):
+                    if not metric.startswith("table:"):            # exact integers: the same entries, re-labelled
+                        D = np.array(D, copy=True)
+                        D[[a, b]] = D[[b, a]]
+                        D[:, [a, b]] = D[:, [b, a]]
+                else:
+                    D = dissim_of(arg, metric)
+        tags.add("repeat:input:" + st["input"])
+        before = np.array(arg, copy=True)
+        try:
+            with quiet():
+                if mode == "precomputed":
+                    out, idx = VAT(arg, None) if positional else VAT(arg, distance_metric=None)
+                elif mode == "default":
+                    out, idx = VAT(arg)
+                else:
+                    out, idx = VAT(arg, fn) if positional else VAT(arg, distance_metric=fn)
+        except Exception as e:  # noqa: BLE001
+            ctx.issue("violation", f"{cls}:raised:{exc_enum(e)}", f"call {k} of the sequence: VAT raised {e!r}", rep)
+            return tags, k
+        if not bits_equal(before, arg):
+            ctx.issue("violation", f"{cls}:mutates-input", f"call {k} of the sequence modified the caller's array", rep)
+        # the property, on this call's input
+        tags |= {"repeat:" + t for t in oracle(ctx, np.asarray(D), out, idx, label, rep)}
+        if is_int(D):
+            oracle_exact(ctx, D, out, idx, label, rep)
+        # what VAT hands out belongs to this call alone
+        o_arr, i_arr = np.asarray(out), np.asarray(idx)
+        for nm, a_ in (("matrix", o_arr), ("index vector", i_arr)):
+            if np.shares_memory(a_, arg):
+                ctx.issue("violation", f"{cls}:result-aliases-input",
+                          f"call {k}: the returned {nm} shares memory with the caller's input array (an in-place edit of "
+                          f"the result would change the caller's data)", rep)
+            for j, res in enumerate(results):
+                if any(a_ is b_ or np.shares_memory(a_, b_) for b_ in (res["R"], res["P"])):
+                    ctx.issue("violation", f"{cls}:result-aliases-earlier-result",
+                              f"call {k}: the returned {nm} shares memory with an array returned by call {j} of the "
+                              f"same sequence (edits made to one result show up in the other)", rep)
+                    break
+        tags.add("repeat:no-alias-checked")
+        results.append(dict(R=out, P=idx, R0=np.array(out, copy=True), P0=np.array(idx, copy=True), edited=False))
+    # results the caller never touched are still what VAT returned
+    for j, res in enumerate(results):
+        if not res["edited"] and not (bits_equal(res["R"], res["R0"]) and bits_equal(res["P"], res["P0"])):
+            ctx.issue("violation", f"{cls}:untouched-result-changed",
+                      f"the arrays returned by call {j} were never edited by the caller, yet they differ from what the "
+                      f"call returned (changed by a later call or by an edit of another call's result)",
+                      dict(base, mode=mode, sequence=steps, positional=positional, call=j))
+    tags.add(f"repeat:calls={len(steps)}")
+    return tags, len(steps)
+
+
 # ------------------------------------------------------------------ run
 
 def mat_qx(M) -> str:
@@ -636,6 +792,43 @@ def run(ctx):
         if i < 4:
             cov.sample({"kind": kind, "n": n, "D": np.asarray(D).tolist() if n <= 6 else "…",
                         "modes": [m for m, _, _ in calls]})
+    # ---- sequences of calls (own generator tag: the cases above are what they were before)
+    N_seq = ctx.scale(420, 2400)
+    seq_kinds = KINDS + ["int-huge", "int-huge"]
+    for j in range(N_seq):
+        i = N + N_huge + j
+        r = gen.rng_for(ctx.seed, "C20-sequence", i)
+        kind = seq_kinds[j % len(seq_kinds)]
+        t = r.random()
+        n = 1 if t < 0.02 else (r.randint(2, 5) if t < 0.5 else r.randint(2, nmax))
+        c = make_case(r, kind, n)
+        D, X = c["D"], c["X"]
+        modes = ["precomputed"] + (["default"] if c["metric"] == "default" else ["custom"] if c["metric"] else [])
+        mode = modes[-1] if r.random() < 0.6 else modes[0]
+        steps = make_sequence(r, n)
+        positional = r.random() < 0.5
+        base = {"case": i, "kind": kind, "n": n, "D_hex": mat_f(np.asarray(D, dtype=float)),
+                "X": None if X is None else X, "metric": c["metric"]}
+        if kind == "int-huge":
+            base.update(D_int=exact_rows(D), dtype=c["dtype"], style=c["style"],
+                        X_int=None if X is None else exact_rows(X),
+                        D_hex="(lossy, see D_int) " + base["D_hex"], X=None)
+        tags, made = run_sequence(ctx, D, X, mode, c["metric"], steps, positional, base)
+        for t_ in tags:
+            cov.hit(t_)
+        cov.hit(f"repeat:mode:{mode}")
+        cov.hit("repeat:call-style:" + ("positional" if positional else "keyword"))
+        if D.dtype.kind in "iu":
+            cov.hit("repeat:int-dtype-input")
+        edited_then_same = any(st["input"] in ("same", "copy") and any(e["edit"] != "none" for e in st["edits"])
+                               for st in steps[1:])
+        if edited_then_same:
+            cov.hit("repeat:edited-result-then-equal-input")
+        cov.case((mode + ":sequence", mat_qx(D) if kind == "int-huge" else base["D_hex"], repr(steps), positional),
+                 n >= 3 and edited_then_same)
+        cov.evaluations += max(0, made - 1)          # one evaluation per call of the sequence
+        if j < 2:
+            cov.sample({"kind": kind, "n": n, "mode": mode, "sequence": steps})
     outs = run_driver(lines)
     for (D, rational, out, idx, mode, rep), mo in zip(pend, outs):
         compare(ctx, D, rational, out, idx, mo, mode, dict(rep, model=mo))
@@ -646,7 +839,11 @@ def run(ctx):
                  "int-dtype:int64", "int-dtype:uint64", "exact-int:entries-above-2**53",
                  "exact-int:entry-not-float64-representable", "exact-int:seed-float64-would-pick-another-row",
                  "exact-int:step-decided-below-float64-spacing", "exact-int:step-float64-would-pick-another-sample",
-                 "custom:integer-dtype-rows"):
+                 "custom:integer-dtype-rows",
+                 "repeat:input:same", "repeat:input:copy", "repeat:input:swap", "repeat:edit:R.scale",
+                 "repeat:edit:R.zero", "repeat:edit:P.sort", "repeat:edit:P.reverse", "repeat:mode:precomputed",
+                 "repeat:mode:default", "repeat:mode:custom", "repeat:edited-result-then-equal-input",
+                 "repeat:no-alias-checked", "repeat:int-dtype-input", "repeat:tie-in-step"):
         if cov.branches.get(must, 0) == 0:
             cov.hit("unreached:" + must)
             ctx.log.append(f"coverage: branch {must!r} not reached in this run")
@@ -664,6 +861,12 @@ def replay(ctx, payload) -> int:
     else:
         D = np.array(parse_mat_f(rep["D_hex"]), dtype=float)
         arg = D if mode == "precomputed" else np.array(rep["X"], dtype=float)
+    if rep.get("sequence"):                   # a caller's sequence of calls with in-place edits in between
+        base = {k_: v for k_, v in rep.items() if k_ not in ("sequence", "call", "mode", "positional")}
+        _, made = run_sequence(ctx, D, None if mode == "precomputed" else arg, mode, rep.get("metric"),
+                               rep["sequence"], bool(rep.get("positional")), base)
+        print(f"[C20] replay: sequence of {len(rep['sequence'])} call(s), {made} made")
+        return 0
     res = call_impl(ctx, mode, arg, rep.get("metric"), rep)
     if res is None:
         return 1
